@@ -21,6 +21,8 @@ Record c06feat := mkFeat {
   f_text2 : jv }.             (* the feature's entry in the values_orders dumped by the reloaded object *)
 
 Record c06case := mkCase {
+  c_valid : bool;             (* a fitted object of the library (true) or a hand-made witness state,
+                                 for which only the agreement model <-> implementation is demanded *)
   c_carver : bool;            (* the fitted object is a carver *)
   c_feats : list c06feat;
   c_serialisable : bool;      (* json.dumps(obj.to_json()) raised nothing *)
@@ -41,7 +43,7 @@ Definition has_entry (t : table) (v : val) : bool :=
   match v with VNum _ => match aget v t with Some _ => true | None => false end | _ => true end.
 
 Definition feat_in_domain (f : c06feat) : bool :=
-  is_str (f_name f) &&
+  is_str (f_name f) && negb (val_eqb (f_name f) (VStr sentinel)) &&
   forallb (fun k => has_entry (f_jk f) k && has_entry (f_ps f) k) (keys (f_orig f) ++ dkeys (content (f_orig f))).
 
 (* ---- model vs implementation ---------------------------------------------------------------- *)
@@ -92,6 +94,7 @@ Definition feat_holds (f : c06feat) : bool :=
   same_groups (f_orig f) (f_reload f) && jv_eqb (f_text2 f) (f_text f).
 
 Definition C06_b (c : c06case) : bool :=
+  negb (c_valid c) ||
   c_serialisable c &&
   match c_load c with
   | Ok ns => vlist_eqb ns (map f_name (c_feats c))
@@ -122,9 +125,8 @@ Definition trip_ok_b (jk ps : val -> string) (g : gl) : bool :=
 (* 0 agree & holds | 1 model and implementation disagree | 2 property predicate fails on the
    implementation's output | 3 outside the model's domain *)
 Definition verdict (c : c06case) : nat :=
-  if negb (c_serialisable c) then 2%nat
-  else if negb (forallb feat_in_domain (c_feats c)) then 3%nat
-  else if negb (agree c) then 1%nat
+  if negb (forallb feat_in_domain (c_feats c)) then 3%nat
+  else if c_serialisable c && negb (agree c) then 1%nat
   else if negb (C06_b c) then 2%nat
   else 0%nat.
 
